@@ -88,7 +88,7 @@ def octets_needed(i):
 
 
 LENGTH_POINTS = sorted(set(
-    list(range(0, 600)) + list(range(600, 8384, 37)) + [k * 256 + d for k in range(1, 34) for d in (-1, 0, 1, 191, 192, 193)] +
+    list(range(0, 600)) + list(range(600, 8384, 5)) + [k * 256 + d for k in range(1, 34) for d in (-1, 0, 1, 191, 192, 193)] +
     [8190, 8191, 8192, 8193, 8382, 8383, 8384, 8385, 8386, 8447, 8448, 8575, 8576, 16319, 16320, 16383, 16384, 65535, 65536, 65537,
      (1 << 24) - 1, 1 << 24, (1 << 31) - 1, 1 << 31, (1 << 32) - 2, (1 << 32) - 1]))
 
@@ -517,7 +517,7 @@ def times(rep, prog):
         rep.saw(fn=sb)
         pv = si.params[1]
         for s in Interp(prog, Scenario(inline=noinline)).run(si):
-            v = [val for pth, val, l, _ in s.stores if pth == 'self.%s' % prop]
+            v = [val for pth, val, l, _ in s.stores if pth.startswith(si.params[0] + '.')]     # the property or its backing attribute
             verdict = _aware_utc_from_seconds(s, v, pv)
             if verdict is None:
                 raise AnalysisError('%s.%s (int): value %s is not a conversion the time-reader rule models' % (cls, prop, v))
@@ -526,8 +526,8 @@ def times(rep, prog):
                       expected='datetime.fromtimestamp(<seconds>, timezone.utc)', found=v)
         bv = sb.params[1]
         for s in Interp(prog, Scenario(inline=noinline)).run(sb):
-            v = [val for pth, val, l, _ in s.stores if pth == 'self.%s' % prop]
-            good = ('self.bytes_to_int(%s)' % bv, "int.from_bytes(%s, 'big')" % bv, "int.from_bytes(%s, byteorder='big')" % bv)
+            v = [val for pth, val, l, _ in s.stores if pth.startswith(sb.params[0] + '.')]
+            good = ('%s.bytes_to_int(%s)' % (sb.params[0], bv), "int.from_bytes(%s, 'big')" % bv, "int.from_bytes(%s, byteorder='big')" % bv)
             rep.check(len(v) == 1 and v[0] in good, 'C09.5', '%s.%s (bytes)' % (cls, prop), '%s' % v, 'the four octets are one big-endian number', where=sb.where)
     ex = prog.cls('pgpy.packet.subpackets.signature', 'SignatureExpirationTime')
     f = ex.methods.get('__bytearray__')
